@@ -397,7 +397,7 @@ impl<'a> Worker<'a> {
         self.rep.count("listings_compared", 1);
         match self.sys.listing(g, s) {
             Err(e) => {
-                self.fail(s, format!("{after}: stored facts cannot be listed"), hist, None, e);
+                self.fail(s, "stored facts cannot be listed".to_string(), hist, None, format!("after {after}: {e}"));
                 false
             }
             Ok(l) => {
@@ -408,7 +408,7 @@ impl<'a> Worker<'a> {
                 let mut sorted = l.clone();
                 sorted.sort();
                 let class = if sorted == want { "stored facts are listed out of key order" } else { "stored facts differ from the model" };
-                self.fail(s, format!("{after}: {class}"), hist, None, format!("storage lists {:?}, model {}", l.iter().map(|(k, v)| show_fact(k, v)).collect::<Vec<_>>(), m.show()));
+                self.fail(s, class.to_string(), hist, None, format!("after {after}: storage lists {:?}, model {}", l.iter().map(|(k, v)| show_fact(k, v)).collect::<Vec<_>>(), m.show()));
                 false
             }
         }
@@ -883,6 +883,8 @@ pub fn run(args: &Args) {
     rep.set("cases", cases.len() as u64);
 
     // ---- run
+    let cap_s: u64 = args.tier.pick(50, 1500);
+    let deadline = mcx::Deadline::after_secs(cap_s);
     let nchunks = 256.min(cases.len().max(1));
     let chunk = cases.len().div_ceil(nchunks);
     let parts: Vec<(Report, MinCases, BTreeSet<(usize, Model)>)> = cases
@@ -892,6 +894,10 @@ pub fn run(args: &Args) {
             let mut w = Worker::new(&rep, &machine, args.seed);
             w.all_literals = thorough;
             for c in cs {
+                if deadline.passed() {
+                    w.rep.count("cases_skipped_after_wall_cap", 1);
+                    continue;
+                }
                 match c {
                     Case::Set { ui, facts, on_graph } => {
                         let si = &unis[*ui].si;
@@ -899,7 +905,14 @@ pub fn run(args: &Args) {
                         let lits: Vec<&Vec<Lit>> = lits.iter().map(|u| &u.lits).collect();
                         fact_set_case(&mut w, *si, &ss[*si], facts, lits[*ui], *on_graph);
                         if facts.len() == 2 && *on_graph && w.rep.counter("fact_sets") % 97 == 1 {
-                            let l = &lits[*ui][lits[*ui].len() / 2];
+                            // the literal with some key bound that matches most facts of this store
+                            let l = lits[*ui].iter().filter(|l| !l.keys.is_empty()).max_by_key(|l| {
+                                let mut m = Model::default();
+                                for (k, v) in facts {
+                                    m.facts.insert(k.clone(), v.clone());
+                                }
+                                m.matches(l).len()
+                            }).unwrap_or(&lits[*ui][0]);
                             let mut m = Model::default();
                             for (k, v) in facts {
                                 m.facts.insert(k.clone(), v.clone());
@@ -936,7 +949,11 @@ pub fn run(args: &Args) {
     bad.flush(&mut rep);
     rep.set("states", states.len() as u64);
     rep.set("traces_validated_against_impl", rep.counter("histories"));
-    rep.set("exhaustive", true);
+    let skipped = rep.counter("cases_skipped_after_wall_cap");
+    rep.set("exhaustive", skipped == 0);
+    if skipped > 0 {
+        rep.set("cap_hit", format!("wall cap of {cap_s}s: {skipped} of {} histories were not run", cases.len()));
+    }
     rep.set(
         "bounds",
         json!({
